@@ -157,7 +157,9 @@ def comp_name(i, role):
 
 
 def effective_dtype(c):
-    return c[1] if c[2] in ("local", "concept") else "String"
+    # "both": the concept carries another data type than the component's local representation; the local one wins (SDMX /
+    # pysdmx Component.dtype), the concept's type is String, or Integer when the local type is String itself
+    return c[1] if c[2] in ("local", "concept", "both") else "String"
 
 
 def expected_of(spec):
@@ -188,6 +190,9 @@ def build_components(spec):
             kw["local_dtype"] = DataType(dt)
         elif src == "concept":
             concept = Concept(id=name, dtype=DataType(dt))
+        elif src == "both":
+            concept = Concept(id=name, dtype=DataType("Integer" if dt == "String" else "String"))
+            kw["local_dtype"] = DataType(dt)
         elif src == "default":
             concept = Concept(id=name)
         else:
@@ -539,7 +544,7 @@ def space_a():
     out = []
     for role in ROLES:
         atts = ("O", "D") if role == "ATTRIBUTE" else (None,)
-        variants = [(d.value, s) for d in DataType for s in ("local", "concept")] + [("-", "default"), ("-", "ref")]
+        variants = [(d.value, s) for d in DataType for s in ("local", "concept", "both")] + [("-", "default"), ("-", "ref")]
         for dt, src in variants:
             for att in atts:
                 c = (role, dt, src, att)
@@ -745,8 +750,8 @@ class Check:
         rec.violations.sort(key=_vsort)
         # non-vacuity
         seen_dtypes = len(installed)
-        if sizes["A"] != len(installed) * 2 * 4 * 2 + 2 * 4 * 2:
-            rec.tool_error("space A has %d structures, expected %d" % (sizes["A"], len(installed) * 16 + 16))
+        if sizes["A"] != len(installed) * 3 * 4 * 2 + 2 * 4 * 2:   # 3 sources (local, concept, both) x (3 roles + 1 extra attachment) x (alone, in context)
+            rec.tool_error("space A has %d structures, expected %d" % (sizes["A"], len(installed) * 24 + 16))
         for e in ENTRIES:
             if not rec.counters.get("calls:" + e):
                 rec.tool_error("entry point %s was never called" % e)
